@@ -727,7 +727,19 @@ outerLoop:
 
 			if ParentT.IsInstance(newBox) {
 				for _, child := range Descendants(newBox) {
-					if content := child.Box().Style.GetContent(); content.String == "normal" || content.String == "none" {
+					content := child.Box().Style.GetContent()
+					if content.String == "normal" || content.String == "none" {
+						continue
+					}
+					// element() is only allowed in page margins, not in the (pseudo-)elements of a running
+					// element: it was ignored when they were built, and expanding it here would never end when
+					// it names the running element itself
+					hasElement := false
+					for _, c := range content.Contents {
+						hasElement = hasElement || c.Type == "element()"
+					}
+					if hasElement {
+						logger.WarningLogger.Printf("element() is only allowed in page margins, not inside the running element %s", value[0])
 						continue
 					}
 					child.Box().Children = ContentToBoxes(
